@@ -57,7 +57,7 @@ type rq struct {
 	ctime, uid, prio int64
 	parent           int64 // index of the parent queue, -1 = child of the root (ignored by the flat plugins)
 	par              int64 // capacity: deserved cpus (0 = none); proportion / hdrf: weight
-	alloc            int64 // running 1-cpu pods (leaf queues only); +8 = no pending pod besides them (the job is fully allocated: hdrf 'saturated')
+	alloc            int64 // running 1-cpu pods (leaf queues only); +8 = no pending pod besides them (the job is fully allocated: hdrf 'saturated'); >= 100000 = ONE running pod of that many milli-cpu (near-tie family)
 }
 
 // keys of one compared queue, as the model reads them
@@ -145,6 +145,22 @@ func compared(pk int64, qs []rq) []int {
 	return out
 }
 
+// milli-cpu of the running pods of a queue, and whether a pending 1-cpu pod follows
+func runPods(q rq) ([]int64, bool) {
+	if q.alloc >= 100000 {
+		return []int64{q.alloc}, true
+	}
+	pods := []int64{}
+	for p := int64(0); p < q.alloc%8; p++ {
+		pods = append(pods, 1000)
+	}
+	return pods, q.alloc < 8
+}
+
+func milliList(m int64) v1.ResourceList {
+	return v1.ResourceList{v1.ResourceCPU: *resource.NewMilliQuantity(m, resource.DecimalSI)}
+}
+
 func qname(q rq) string { return uidStr(q.uid) } // QueueInfo.UID is the queue NAME: the tie-break compares it
 
 type world6 struct {
@@ -192,13 +208,16 @@ func build6(pk, en, pos int64, qs []rq) *world6 {
 			Spec: scheduling.QueueSpec{Weight: 1}, Status: scheduling.QueueStatus{State: scheduling.QueueStateOpen}}
 		snap.Queues["root"] = api.NewQueueInfo(root)
 	}
-	total := int64(4)
+	total := int64(4000)
 	if pos >= 3 { // ample node: nobody contends, proportion's deserved is exactly the request
-		total += 2 * int64(len(qs))
+		total += 2000 * int64(len(qs))
 		pos -= 3
 	}
 	for i, q := range qs {
-		total += q.alloc % 8
+		rp, _ := runPods(q)
+		for _, m := range rp {
+			total += m
+		}
 		if !isQueue[i] {
 			continue
 		}
@@ -232,7 +251,7 @@ func build6(pk, en, pos int64, qs []rq) *world6 {
 		w.queues[i] = qi
 	}
 	node := &v1.Node{ObjectMeta: metav1.ObjectMeta{Name: "n1"},
-		Status: v1.NodeStatus{Capacity: cpuList(total), Allocatable: cpuList(total)}}
+		Status: v1.NodeStatus{Capacity: milliList(total), Allocatable: milliList(total)}}
 	node.Status.Allocatable[v1.ResourcePods] = *resource.NewQuantity(1000, resource.DecimalSI)
 	node.Status.Capacity[v1.ResourcePods] = *resource.NewQuantity(1000, resource.DecimalSI)
 	ni := api.NewNodeInfo(node)
@@ -251,16 +270,21 @@ func build6(pk, en, pos int64, qs []rq) *world6 {
 			Spec:       scheduling.PodGroupSpec{MinMember: 1, Queue: qname(q), MinTaskMember: map[string]int32{}},
 			Status:     scheduling.PodGroupStatus{Phase: scheduling.PodGroupRunning},
 		}})
-		running, npods := q.alloc%8, q.alloc%8+1
-		if q.alloc >= 8 {
-			npods = running
+		rp, pending := runPods(q)
+		running, npods := int64(len(rp)), int64(len(rp))
+		if pending {
+			npods++
 		}
 		for p := int64(0); p < npods; p++ {
 			pn := fmt.Sprintf("%s-w-%d", jn, p)
+			req := cpuList(1)
+			if p < running {
+				req = milliList(rp[p])
+			}
 			pod := &v1.Pod{
 				ObjectMeta: metav1.ObjectMeta{Name: pn, Namespace: "ns", UID: types.UID(pn),
 					Annotations: map[string]string{"scheduling.k8s.io/group-name": jn}},
-				Spec:   v1.PodSpec{Containers: []v1.Container{{Name: "c", Resources: v1.ResourceRequirements{Requests: cpuList(1)}}}},
+				Spec:   v1.PodSpec{Containers: []v1.Container{{Name: "c", Resources: v1.ResourceRequirements{Requests: req}}}},
 				Status: v1.PodStatus{Phase: v1.PodPending},
 			}
 			if p < running { // the last pod (if any) stays pending
@@ -640,6 +664,42 @@ func genTieFamily(r *vh.Rng, pk int64, exact bool) []rq {
 }
 
 func gen6(r *vh.Rng, n int, emit func(id string, sel int, in []int64, kind string, nontrivial bool, desc any)) {
+	// near ties of the queue share: 3-4 sibling queues of one priority, deserved 10^7
+	// milli-cpu (capacity) resp. ample node (proportion), holding 5*10^6 + 7j milli-cpu
+	// (capacity shares 7*10^-7 apart), creation times running the opposite way.  No
+	// subtree and no depth difference is involved: an "equal within a tolerance"
+	// share comparison is intransitive exactly here, and no known finding covers it
+	for i := 0; i < n/6+3; i++ {
+		pk := int64(5 + i%3)
+		nq := vh.Pick(r, []int{3, 3, 4})
+		step := int64(vh.Pick(r, []int{7, 7, 7, 1, 9}))
+		qs := []rq{}
+		for j := 0; j < nq; j++ {
+			q := rq{ctime: int64(2 - j), uid: int64(30 - j), parent: -1, par: 10000, alloc: 5000000 + step*int64(j)}
+			if q.ctime < 0 {
+				q.ctime = 0
+			}
+			if pk == 5 {
+				q.par = 1
+			}
+			qs = append(qs, q)
+		}
+		if r.Chance(1, 2) {
+			for a := len(qs) - 1; a > 0; a-- {
+				b := r.Intn(a + 1)
+				qs[a], qs[b] = qs[b], qs[a]
+			}
+		}
+		x := in6{pk: pk, en: 2, pre: int64(r.Intn(nq)), pos: int64(r.Intn(3)), qs: qs}
+		if pk == 5 {
+			x.pos += 3
+		}
+		w := build6(x.pk, x.en, x.pos, x.qs)
+		x.keys = w.keys()
+		framework.CloseSession(w.ssn)
+		kind := map[int64]string{5: "queues/proportion-near-ties", 6: "queues/capacity-flat-near-ties", 7: "queues/capacity-hierarchical-near-ties"}[pk]
+		emit(fmt.Sprintf("realq-neartie-%d", i), 6, enc6(x), kind, true, nil)
+	}
 	for i := 0; i < n/4+2; i++ {
 		pk := int64(7 + i%2)
 		qs := genTieFamily(r, pk, i < 2)
